@@ -42,8 +42,24 @@ Theorem C06_lex_terminates : forall text file,
 Proof. exact lex_terminates. Qed.
 Print Assumptions C06_lex_terminates.
 ''')
-mk("C18","structurally malformed input is always rejected","RejectExamples"," UnicodeTables PyRepr Lexer RejectProofs",
-'''(* an error item cannot be skipped: asking for one more token raises ParseError at exactly its position *)
+mk("C18","structurally malformed input is always rejected","RejectExamples"," UnicodeTables PyRepr Lexer RejectProofs ConsumeProofs ConsumeTheorem",
+'''(* For ALL inputs: if parse() succeeds on the whole pipeline model then every item the lexer produced
+   was a token - no "Illegal character", no malformed literal, no comment, no bad directive error was
+   reported and skipped - and every token was delivered to the parser (proved by one invariant argument
+   over all 71 mutually recursive productions and every helper). *)
+Theorem C18_parse_ok_all_tokens : forall (P: Type) fuel items eof file ast s\',
+  parse_tokens P fuel (init_pstate P items eof file) = Ok (ast, s\') ->
+  forallb (is_tok P) items = true /\\ raw P s\' = [].
+Proof. exact parse_ok_all_tokens. Qed.
+Print Assumptions C18_parse_ok_all_tokens.
+
+Theorem C18_parse_ok_no_lexer_error : forall text file r,
+  run_parse text file = Ok r ->
+  forallb is_rtok (fst (fst (raw_lex (S (length text)) (init_lexst file) text))) = true.
+Proof. exact parse_ok_no_lexer_error. Qed.
+Print Assumptions C18_parse_ok_no_lexer_error.
+
+(* an error item cannot be skipped: asking for one more token raises ParseError at exactly its position *)
 Theorem C18_deliver_error_item : forall (P: Type) (s: pstate P) msg p f r,
   raw P s = PErr P msg p f :: r -> deliver1 P s = Err (L_coord P (mkCoord P f p)) msg.
 Proof. exact deliver_error_item. Qed.
